@@ -84,7 +84,8 @@ class Collector:
             # a rule that said "this shape is not one I recognise"
             # (UNDECIDED, printed) has not silently matched nothing
             if any(o.status == UNDECIDED and (o.rule == rule or
-                                              o.rule.startswith(rule + "."))
+                                              o.rule.startswith(rule + ".") or
+                                              rule.startswith(o.rule + "."))
                    for o in self.obs):
                 continue
             if n < minimum:
